@@ -5,7 +5,7 @@ import random
 from corr.common import Tally, hx, exn_class
 from corr import wsrun
 from corr.recvprops import KEYS
-from sim.sock import server_frame, Sock, HandshakeSock, BlocksForever
+from sim.sock import server_frame, Sock, HandshakeSock, BlocksForever, connected_ws
 
 OPS = ["s1:6869", "rd1", "rv", "pi:70", "cl:1000:-", "cl:3001:627965", "cl:70000:-", "cl:-1:-", "sc:1001:-", "sh", "rf"]
 SCRIPTS = {
@@ -191,8 +191,37 @@ def bounded_close(T, rng, n, only=None):
         _core.time = real
 
 
+def write_faults(T):
+    """A close frame whose write fails part-way (timeout / broken pipe), followed by the application's clean-up close(): still at most
+    one close frame is started on the wire, and the transport is released.  (Judged directly; the model has no write faults.)"""
+    import websocket
+    for how in ("timeout", "pipe"):
+        for part in (0, 3, 5):
+            for first in ("send_close", "auto-reply"):
+                evs = [("D", server_frame(8, b"\x03\xe8"))] if first == "auto-reply" else []
+                ws, s = connected_ws(evs)
+                s.silence_after = False
+                base = getattr(s, "nsend", 0)
+                s.send_faults = {base + 1: (part, how)}
+                res = []
+                for call in ((lambda: ws.send_close()) if first == "send_close" else (lambda: ws.recv()), lambda: ws.close(), lambda: ws.close()):
+                    try:
+                        call()
+                        res.append("ok")
+                    except Exception as e:
+                        res.append("raise:" + exn_class(e))
+                starts = [e[1] for e in s.log[s.hs_mark:] if e[0] == "w" and e[1][:1] == b"\x88"]
+                T.case(("write-fault", how, part, first), nontrivial=True, bucket="write-fault", sample={"fault": how, "bytes_before_fault": part, "first": first, "results": res})
+                if len(starts) > 1 or ws.sock is not None or s.closed < 1:
+                    T.fail("spec", {"kind": "write-fault", "fault": how, "part": part, "first": first}, "at most one close frame started, transport released",
+                           f"{len(starts)} close frames started, sock={ws.sock}, closed={s.closed}, results={res}", {"site": "close", "cls": "close-count", "write_fault": True},
+                           what="after a close frame whose write failed part-way, close() started a second close frame or left the transport open")
+                    return
+
+
 def run(ctx):
     T = Tally()
+    write_faults(T)
     rng = random.Random(ctx.seed)
     runs = []
     for name, ops in histories(ctx.tier, rng):
@@ -234,6 +263,10 @@ def search(ctx):
 
 
 def replay(ctx, sc):
+    if sc.get("kind") == "write-fault":
+        T = Tally()
+        write_faults(T)
+        return T.failures[0] if T.failures else None
     if sc.get("kind") == "bounded":
         T = Tally()
         bounded_close(T, random.Random(0), 1, only=sc)
